@@ -248,6 +248,9 @@ func readOptHeader(r io.Reader, d io.Writer, peStart int64, fh *pe.FileHeader) (
 	if _, err := io.ReadFull(r, buf); err != nil {
 		return nil, err
 	}
+	if len(buf) < 2 {
+		return nil, errors.New("PE optional header is too short")
+	}
 	// locate the bits that need to be omitted from hash
 	cksumStart := 64
 	cksumEnd := cksumStart + 4
